@@ -55,6 +55,9 @@ def run_target(t, foreign=None, rng=None):
             for k in range(t["nrows"]):
                 s.add_row(); outs.append(numpy.array(s.scrn, copy=True)); gap(2 + k)
                 _ = s.scrn; _ = repr(s)
+                if t.get("touch"):
+                    # other library calls applied to the LIVE screen (the array .scrn hands out) between two rows
+                    live_screen_calls(s.scrn, k)
             if t.get("reinit"):
                 # the public make_initial_screen() called again on the same object: same seed and parameters, so the same
                 # initial screen and the same following rows
@@ -62,6 +65,26 @@ def run_target(t, foreign=None, rng=None):
                 for k in range(t["nrows"]):
                     s.add_row(); outs.append(numpy.array(s.scrn, copy=True)); gap(51 + k)
     return outs
+
+
+def live_screen_calls(a, k):
+    import aotools
+    from aotools.turbulence import slopecovariance as sc_, temporal_ps as tp_
+    from aotools.image_processing import centroiders as cen_, psf as psf_, contrast as con_
+    from aotools import interpolation as itp_
+    calls = [lambda: sc_.calculate_structure_function(a), lambda: sc_.calculate_structure_function(a, nbOfPoint=3, step=2),
+             lambda: cen_.centre_of_gravity(a), lambda: cen_.centre_of_gravity(a, threshold=0.3), lambda: cen_.brightest_pixel(a, 0.4),
+             lambda: cen_.correlation_centroid(a, a), lambda: con_.rms_contrast(a), lambda: con_.image_contrast(a),
+             lambda: aotools.ft2(a, 0.1), lambda: aotools.ift2(a, 0.1), lambda: psf_.azimuthal_average(a),
+             lambda: itp_.zoom_rbs(a, (a.shape[0] + 3, a.shape[1] + 3)), lambda: tp_.calc_slope_temporalps(a),
+             lambda: sc_.structure_function_vk(numpy.abs(a), 0.2, 20.0), lambda: aotools.phase_covariance(numpy.abs(a) + 0.1, 0.2, 20.0)]
+    import contextlib, io
+    with contextlib.redirect_stdout(io.StringIO()):
+        for j in range(4):
+            try:
+                calls[(3 * k + 5 * j) % len(calls)]()
+            except Exception:
+                pass
 
 
 class Foreign:
@@ -289,6 +312,9 @@ def property_checks(inp):
         h = len(both) // 2
         A(("make_initial_screen() called again on a seeded object re-makes the same initial screen and the same rows (%s target)" % t["kind"],
            0.0 if (bits_same(both[:h], both[h:]) and bits_same(both[:h], ref)) else 1.0, 0.0))
+    if t["kind"] in ("vk", "fried"):
+        t5 = copy.deepcopy(t); t5["touch"] = True
+        A(("rows do not depend on library calls made on the live screen array between them (%s target)" % t["kind"], 0.0 if bits_same(run_target(t5), ref) else 1.0, 0.0))
     # different seeds differ, unseeded calls differ
     t3 = copy.deepcopy(t); t3["seed"] = 424242 if t["seed"] != 424242 else 7
     other = run_target(t3)
